@@ -42,3 +42,115 @@ contract(T4 + 'Type4Tag.NDEF._read_ndef_data', 'C08',
          loops={('nfc.tag.tt4.Type4Tag.NDEF._read_ndef_data', 'While', 0): LoopSpec(
              invariant=['len(data) <= nlen', 'nlen <= self._capacity'], decreases='nlen - len(data)',
              havoc={'data': Bytes(0, None, mutable=True), 'self._tag._dep.commands': Int(0, None)})})
+
+# ---------------------------------------------------------------- Type 2: TLV walk over arbitrary memory
+# The tag answers every READ with arbitrary octets (or fails); the memory image, the control TLVs and the skip set
+# they create are therefore arbitrary.  Sets of byte addresses are interval sets (2.2 of DESIGN): membership is a
+# term, len() is abstracted to its bounds (same set expression, same size).
+T2 = 'nfc.tag.tt2:'
+T2R = 'nfc.tag.tt2.Type2Tag.NDEF._read_ndef_data'
+MEMINV = ['len(%s._data_in_cache) == len(%s._data_from_tag)', 'len(%s._data_from_tag) % 16 == 0']
+contract(T2 + 'Type2Tag.NDEF._read_ndef_data', 'C08',
+         dict(self=Obj(T2 + 'Type2Tag.NDEF', _partial=False, _data=None, _capacity=0, _readable=False,
+                       _writeable=False,
+                       _tag=Obj('models.tag_models:T2TagAdversary', _partial=False, commands=0))),
+         name='C08/tt2._read_ndef_data',
+         ensures=[('post.within-capacity', 'result is None or len(result) <= self._capacity')],
+         raises={},
+         loops={
+             (T2R, 'While', 0): LoopSpec(
+                 invariant=['offset >= 16', 'ndef is None', 'data_area_size == raw_capacity',
+                            'raw_capacity >= 0 and raw_capacity <= 2040', 'set_within(skip_bytes, 0, 0x80000)',
+                            'offset <= 0x90004'] + [x.replace('%s', 'tag_memory') for x in MEMINV],
+                 decreases='data_area_size + 16 - offset',
+                 havoc={'offset': Int(16, None), 'ndef': Const(None), 'skip_bytes': IntSet(0, 0x80000),
+                        'tag_memory._data_from_tag': Bytes(16, None, mutable=True),
+                        'tag_memory._data_in_cache': Bytes(16, None, mutable=True),
+                        'self._tag.commands': Int(0, None)}),
+             (T2R, 'While', 1): LoopSpec(
+                 entry={'_o0': 'offset'},
+                 invariant=['offset >= _o0', 'offset <= max(_o0, 0x80000)'], decreases='0x80000 - offset',
+                 havoc={'offset': Int(16, None)}),
+             ('nfc.tag.tt2.read_tlv', 'For', 0): LoopSpec(
+                 entry={'_o1': 'offset'},
+                 invariant=['offset >= _o1', 'offset <= max(_o1, 0x80000)', 'len(tlv_v) == tlv_l'] + [x.replace('%s', 'memory') for x in MEMINV],
+                 havoc={'offset': Int(0, None), 'tlv_v': Bytes(0, None, mutable=True),
+                        'memory._data_from_tag': Bytes(16, None, mutable=True),
+                        'memory._data_in_cache': Bytes(16, None, mutable=True),
+                        'memory._tag.commands': Int(0, None)}),
+             ('nfc.tag.tt2.read_tlv', 'While', 0): LoopSpec(
+                 entry={'_o2': 'offset'},
+                 invariant=['offset >= _o2', 'offset <= max(_o2, 0x80000)'],
+                 decreases='0x80000 - (offset + i)', havoc={'offset': Int(0, None)}),
+             ('nfc.tag.tt2.Type2TagMemoryReader._read_from_tag', 'While', 0): LoopSpec(
+                 invariant=['index % 16 == 0', 'len(self._data_from_tag) == index',
+                            'len(self._data_in_cache) == index'],
+                 decreases='stop - index',
+                 havoc={'index': Int(0, None), 'self._data_from_tag': Bytes(0, None, mutable=True),
+                        'self._data_in_cache': Bytes(0, None, mutable=True), 'self._tag.commands': Int(0, None)})})
+
+# ---------------------------------------------------------------- Type 1: the same walk over segment reads
+T1 = 'nfc.tag.tt1:'
+T1R = 'nfc.tag.tt1.Type1Tag.NDEF._read_ndef_data'
+M1 = 'len(%s._data_in_cache) == len(%s._data_from_tag)'
+# memory[key] of the Type 1 memory reader as a summary (proved here, used by the TLV walk): reads what is
+# missing from the tag, keeps the two images the same length, returns one octet or the addressed slice, raises
+# only the tag's command error (also for addresses beyond segment 15)
+T1E = T1 + 'Type1TagCommandError'
+RDR1 = lambda: Obj(T1 + 'Type1TagMemoryReader', _partial=False, _data_from_tag=Bytes(0, None, mutable=True),   # noqa
+                   _data_in_cache=Bytes(0, None, mutable=True), _header_rom=Bytes(0, 2, mutable=True),
+                   _tag=Obj('models.tag_models:T1TagAdversary', _partial=False, commands=0))
+contract(T1 + 'Type1TagMemoryReader.__getitem__', 'C08',
+         dict(self=RDR1(), key=OneOf(Int(0, None), SliceOf(Int(0, None), Int(0, None)))),
+         name='C08/tt1.memory.getitem',
+         requires=[M1 % ('self', 'self'), 'not isinstance(key, slice) or (key.start <= key.stop and key.stop <= 0x100000)'],
+         modifies={'self._data_from_tag': Bytes(0, None, mutable=True),
+                   'self._data_in_cache': Bytes(0, None, mutable=True),
+                   'self._header_rom': Bytes(0, 2, mutable=True), 'self._tag.commands': Int(0, None)},
+         ensures=[('post.lengths', M1 % ('self', 'self')),
+                  ('post.result', '(isinstance(key, slice) and len(result) == key.stop - key.start) or '
+                                  '(not isinstance(key, slice) and result >= 0 and result <= 255)')],
+         raises={T1E: [M1 % ('self', 'self')]},
+         returns='nondet_bytearray(key.stop - key.start, key.stop - key.start) if isinstance(key, slice) '
+                 'else nondet_int(0, 255)',
+         loops={('nfc.tag.tt1.Type1TagMemoryReader._read_from_tag', 'While', 0): LoopSpec(
+                 invariant=[M1 % ('self', 'self'), 'stop <= 2048'],
+                 decreases='stop - len(self._data_from_tag)',
+                 havoc={'self._data_from_tag': Bytes(0, None, mutable=True),
+                        'self._data_in_cache': Bytes(0, None, mutable=True), 'self._tag.commands': Int(0, None)})})
+contract(T1 + 'Type1Tag.NDEF._read_ndef_data', 'C08',
+         dict(self=Obj(T1 + 'Type1Tag.NDEF', _partial=False, _data=None, _capacity=0, _readable=False,
+                       _writeable=False, _ndef_tlv_offset=0,
+                       _tag=Obj('models.tag_models:T1TagAdversary', _partial=False, commands=0))),
+         name='C08/tt1._read_ndef_data', use=['C08/tt1.memory.getitem'],
+         ensures=[('post.within-capacity', 'result is None or len(result) <= self._capacity')],
+         raises={},
+         loops={
+             (T1R, 'While', 0): LoopSpec(
+                 invariant=['offset >= 12', 'ndef is None', 'tag_memory_size >= 8 and tag_memory_size <= 2048',
+                            'set_within(skip_bytes, 0, 0x800)', 'offset <= 0x800 + 0x10004',
+                            M1 % ('tag_memory', 'tag_memory')],
+                 decreases='tag_memory_size - offset',
+                 havoc={'offset': Int(12, None), 'ndef': Const(None), 'skip_bytes': IntSet(0, 0x800),
+                        'tag_memory._data_from_tag': Bytes(0, None, mutable=True),
+                        'tag_memory._data_in_cache': Bytes(0, None, mutable=True),
+                        'tag_memory._header_rom': Bytes(2, 2, mutable=True),
+                        'self._tag.commands': Int(0, None)}),
+             ('nfc.tag.tt1.read_tlv', 'For', 0): LoopSpec(
+                 entry={'_o1': 'offset'},
+                 invariant=['offset >= _o1', 'offset <= max(_o1, 0x800)', 'len(tlv_v) == tlv_l',
+                            M1 % ('memory', 'memory')],
+                 havoc={'offset': Int(0, None), 'tlv_v': Bytes(0, None, mutable=True),
+                        'memory._data_from_tag': Bytes(0, None, mutable=True),
+                        'memory._data_in_cache': Bytes(0, None, mutable=True),
+                        'memory._header_rom': Bytes(2, 2, mutable=True),
+                        'memory._tag.commands': Int(0, None)}),
+             ('nfc.tag.tt1.read_tlv', 'While', 0): LoopSpec(
+                 entry={'_o2': 'offset'},
+                 invariant=['offset >= _o2', 'offset <= max(_o2, 0x800)'],
+                 decreases='0x800 - (offset + i)', havoc={'offset': Int(0, None)}),
+             ('nfc.tag.tt1.Type1TagMemoryReader._read_from_tag', 'While', 0): LoopSpec(
+                 invariant=[M1 % ('self', 'self'), 'stop <= 2048'],
+                 decreases='stop - len(self._data_from_tag)',
+                 havoc={'self._data_from_tag': Bytes(0, None, mutable=True),
+                        'self._data_in_cache': Bytes(0, None, mutable=True), 'self._tag.commands': Int(0, None)})})
